@@ -38,6 +38,9 @@ def configs(tier):
                 out.append({'rows': rows, 'n': n, 'method': method})
     # both analyses share one find_extrema_kwargs dictionary (the natural way to write the comparison)
     out.append({'rows': 1, 'n': 5, 'method': 'cycles', 'shared_options': True})
+    # tables returned without the sample columns must mirror each other as well
+    for method in ('cycles', 'amp'):
+        out.append({'rows': 2, 'n': 6, 'method': method, 'return_samples': False})
     return out
 
 
@@ -100,9 +103,11 @@ def run(ctx, cfg):
     fek = {'filter_kwargs': {'n_cycles': 3}, 'boundary': 0} if cfg.get('shared_options') else None
     try:
         t_tab = ff.compute_features(np.array(list(x), dtype=float), 500.0, (8.0, 12.0), center_extrema='trough',
-                                    burst_method=method, threshold_kwargs=thresholds_for(method), find_extrema_kwargs=fek)
+                                    burst_method=method, threshold_kwargs=thresholds_for(method), find_extrema_kwargs=fek,
+                                    return_samples=cfg.get('return_samples', True))
         p_tab = ff.compute_features(np.array([-v for v in x], dtype=float), 500.0, (8.0, 12.0), center_extrema='peak',
-                                    burst_method=method, threshold_kwargs=thresholds_for(method), find_extrema_kwargs=fek)
+                                    burst_method=method, threshold_kwargs=thresholds_for(method), find_extrema_kwargs=fek,
+                                    return_samples=cfg.get('return_samples', True))
     except Exception as e:
         ctx.fail(exc_label(e))
         return
@@ -124,6 +129,8 @@ def run(ctx, cfg):
     if not ctx.prove(len(t_tab) == len(p_tab) == rows, 'same number of cycles'):
         return
     obl = [(sorted(tc.keys()) == sorted(SWAP.get(c, c) for c in pc), 'same columns once peak/trough and rise/decay names are swapped')]
+    if cfg.get('return_samples', True) is False:
+        obl.append((not [c for c in list(tc) + list(pc) if c.startswith('sample_')], 'no sample_* column when return_samples is False'))
     if not ctx.prove_all(obl):
         return
     obl = []
